@@ -228,6 +228,30 @@ def method_call(fr, obj, name, args, kwargs):
             return None
         if name == "copy":
             return Seq(obj.length, obj._fn)
+        if name == "pop":
+            n = obj.length
+            if c.branch(sym.le(n, 0)):
+                raise PyRaise("IndexError", "pop from empty list")
+            old = obj._fn
+            if not args:
+                v = old(sym.sub(n, 1))
+                obj.length = sym.sub(n, 1)
+                obj.version += 1
+                return v
+            k = args[0]
+            if isinstance(k, Arr) and k.ndim == 0:
+                k = k.cell(())
+            if not is_int(k):
+                raise PyRaise("TypeError", "list index must be an integer")
+            if c.branch(sym.Or_(sym.lt(k, sym.neg(n)), sym.le(n, k))):
+                raise PyRaise("IndexError", "pop index out of range")
+            if not c.is_valid(zi(k) >= 0):
+                k = sym.ite(zi(k) < 0, sym.add(k, n), k)
+            v = old(k)
+            obj._fn = lambda j, old=old, k=k: sym.Lazy.choose(sym.lt(j, k), lambda: old(j), lambda: old(sym.add(j, 1)))
+            obj.length = sym.sub(n, 1)
+            obj.version += 1
+            return v
         raise Unsupported(f"method {name} on a symbolic list")
     if isinstance(obj, dict):
         return dict_method(fr, obj, name, args, kwargs)
@@ -455,3 +479,8 @@ def _pinv(fr, args, kwargs):
 def _solve(fr, args, kwargs):
     from . import matmodel
     return matmodel.solve(N.asarray(args[0]), N.asarray(args[1]))
+
+
+@model("numpy.argsort")
+def _argsort(fr, args, kwargs):
+    return N.argsort(args[0])
